@@ -87,12 +87,14 @@ class C13(Harness):
                 return W.np.array([W.uf("inv_boxcox", [v, lmbda], "rr>r") for v in L(x)])
 
             def brent(func, brack=None, args=()):
-                return holder[kind]["lam"]
+                # the optimum depends on the criterion being optimised (likelihood vs probability-plot correlation)
+                return holder[kind]["lam"] if "mle" in getattr(func, "__name__", "mle") else holder[kind]["lam2"]
 
             ov["scipy.special"] = types.SimpleNamespace(boxcox=boxcox, inv_boxcox=inv_boxcox)
             ov["scipy"] = types.SimpleNamespace(optimize=types.SimpleNamespace(brent=brent, fminbound=brent), special=types.SimpleNamespace(boxcox=boxcox, inv_boxcox=inv_boxcox), stats=None)
-            ov["scipy.stats"] = types.SimpleNamespace(boxcox_llf=None, distributions=None)
-            ov["scipy.stats.morestats"] = types.SimpleNamespace(_boxcox_conf_interval=None, _calc_uniform_order_statistic_medians=None)
+            _norm = types.SimpleNamespace(ppf=lambda q: q)
+            ov["scipy.stats"] = types.SimpleNamespace(boxcox_llf=None, distributions=types.SimpleNamespace(norm=_norm))
+            ov["scipy.stats.morestats"] = types.SimpleNamespace(_boxcox_conf_interval=None, _calc_uniform_order_statistic_medians=lambda n: [0.5] * n)
         if ck in ("detrend-poly", "imputer") and kind == "sym":
             ov["sklearn.linear_model"] = types.SimpleNamespace(LinearRegression=msk.LinearRegression)
             ov["sklearn.pipeline"] = types.SimpleNamespace(make_pipeline=msk.make_pipeline)
@@ -146,10 +148,11 @@ class C13(Harness):
             Ln = choice("L", 1, 3)
             inp["z"] = fresh_reals(ctx, "z", Ln)
             inp["d"] = choice("d", -1, 5)
-            if k == "detrend-stub":
-                inp["with_update"] = bool(ctx.fresh_bool("with_update"))
-                if inp["with_update"]:
-                    inp["u"] = fresh_reals(ctx, "u", 1)
+            inp["with_update"] = bool(ctx.fresh_bool("with_update"))
+            if inp["with_update"]:
+                inp["u"] = fresh_reals(ctx, "u", 1)
+                # the default (polynomial) detrender keeps its fitted line when the update does not re-estimate
+                inp["update_params"] = True if k == "detrend-stub" else False
         elif k in ("boxcox", "log", "adaptor", "passthrough"):
             n = choice("n", 2, 3)
             inp["ytr"] = fresh_reals(ctx, "y", n)
@@ -161,6 +164,8 @@ class C13(Harness):
                     ctx.assume(v > 0)  # positive series, as the transformers require
             if k == "boxcox":
                 inp["lam"] = ctx.fresh_real("lam")
+                inp["lam2"] = ctx.fresh_real("lam2")
+                inp["method"] = "pearsonr" if bool(ctx.fresh_bool("pearsonr")) else "mle"
             if k == "passthrough":
                 inp["passthrough"] = bool(ctx.fresh_bool("passthrough"))
                 inp["reused"] = bool(ctx.fresh_bool("reused"))  # the same object was fitted before with the opposite setting
@@ -192,7 +197,7 @@ class C13(Harness):
         k = cell["kind"]
         s0 = inp["s0"]
         hold = self.__dict__.setdefault("_hold", {})
-        hold[W.kind] = {"W": W, "sigma": inp.get("sigma"), "lam": inp.get("lam"), "s0": inp["s0"]}
+        hold[W.kind] = {"W": W, "sigma": inp.get("sigma"), "lam": inp.get("lam"), "lam2": inp.get("lam2"), "s0": inp["s0"]}
         log = []
 
         def ser(vals, start):
@@ -245,11 +250,11 @@ class C13(Harness):
             out["ft"] = pack(t2.fit_transform(ytr))
             out["tt"] = pack(t.transform(ytr))
             if inp.get("with_update"):
-                t.update(ser(inp["u"], s0 + len(inp["ytr"])))
+                t.update(ser(inp["u"], s0 + len(inp["ytr"])), update_params=inp.get("update_params", True))
             out["cutoff"] = S(t.forecaster_.cutoff)
         elif k == "boxcox":
             BC = W.load("sktime.transformations.series.boxcox").BoxCoxTransformer
-            t, t2 = BC(), BC()
+            t, t2 = BC(method=inp["method"]), BC(method=inp["method"])
             t.fit(ytr)
             out["lambda"] = S(t.lambda_)
             out["ft"] = pack(t2.fit_transform(ytr))
@@ -368,7 +373,8 @@ class C13(Harness):
                 tpos = d + i
                 P.eq("detrend-subtracts-forecast-at-labels", zt[i], z[i] - (ybar + slope * (tpos - tbar)))
         elif k == "boxcox":
-            lam = inp["lam"]
+            lam = inp["lam"] if inp["method"] == "mle" else inp["lam2"]
+            P.eq("fit_transform-equals-fit-then-transform", out["lambda"], lam, {"what": "lambda of the requested method"})
             for i in range(len(z)):
                 if P.sym:
                     P.eq("same-time-index", zt[i], W.uf("boxcox", [z[i], lam], "rr>r"))
